@@ -38,7 +38,11 @@ KEYWORDS = ["if", "for", "class", "lambda", "None", "True", "False", "import", "
 
 @st.composite
 def gene_id(draw):
-    cls = draw(st.sampled_from(["plain", "plain", "digit", "keyword", "punct", "punct", "punct", "mixed"]))
+    cls = draw(st.sampled_from(["plain", "plain", "digit", "keyword", "punct", "punct", "punct", "mixed", "oplike", "oplike"]))
+    if cls == "oplike":
+        # identifiers that contain the operator words (real gene names do: MTOR, RPTOR, ANDR1, ORF1, NOR1, BRAND2)
+        return draw(st.sampled_from(["ANDR1", "MTOR", "RPTOR", "ORF1", "NOR1", "BRAND2", "andx", "xor", "b.OR", "AND1", "OR2", "Band",
+                                     "TOR.1", "and_1", "or-2", "xAND", "ORx", "aANDb", "a.AND", "OR.b", "nand", "orc"]))
     base = draw(st.text(alphabet=_PLAIN, min_size=1, max_size=5))
     if cls == "plain":
         s = "g" + base
@@ -267,6 +271,7 @@ def check_remove(case, ctx):
 # exhaustive small scope
 # ------------------------------------------------------------------------------------------
 ID_SETS = {
+    "oplike": ["ANDR1", "MTOR", "b.OR"],
     "plain": ["a", "b1", "c_x"],
     "digit": ["1a", "22", "3_b"],
     "keyword": ["if", "None", "lambda"],
